@@ -29,6 +29,8 @@ FLAVOURS = {
     'fuzz': ['-O1', '-fsanitize=fuzzer,address,undefined', '-fno-sanitize-recover=all', '-fno-sanitize=object-size',
              '-D_GLIBCXX_ASSERTIONS', '-DVF_FUZZ'],
 }
+# the flags users build with: optimised, assertions compiled out, no sanitizer (oracles only)
+FLAVOURS['release'] = ['-O2', '-DNDEBUG']
 COMPILER = {'fuzz': 'clang++'}
 RUN_ENV = {
     'asan': {
@@ -39,6 +41,7 @@ RUN_ENV = {
         'TSAN_OPTIONS': 'halt_on_error=0:exitcode=0:second_deadlock_stack=1:history_size=4',
     },
     'plain': {},
+    'release': {},
     'fuzz': {
         'ASAN_OPTIONS': 'abort_on_error=1:detect_leaks=0:allocator_may_return_null=1',
         'UBSAN_OPTIONS': 'print_stacktrace=1:halt_on_error=1',
